@@ -193,7 +193,7 @@ func c04arg(kinds int) (parts []*c04part, want string, isLit bool) {
 
 // VerifC04Frame: template command with literal-capable arguments followed by two NOOPs.
 func VerifC04Frame() {
-	tmpl := nd.Concretize(nd.Choice(5))
+	tmpl := nd.Concretize(nd.Choice(6))
 	litPlus := nd.Bool()
 	hostile := nd.Param("hostile") == 1
 	caps := imap.CapSet{imap.CapIMAP4rev1: {}}
@@ -205,6 +205,7 @@ func VerifC04Frame() {
 	text := func(s string) { first.parts = append(first.parts, &c04part{text: s}) }
 	var wantOp string
 	hasJunk := false
+	notKey := false
 	var want []string
 	var lits []*c04part
 	addArg := func() {
@@ -239,6 +240,13 @@ func VerifC04Frame() {
 		startState = imap.ConnStateSelected
 		wantOp = "Search"
 		text("A1 SEARCH TEXT ")
+		addArg()
+		text("\r\n")
+	case 5:
+		startState = imap.ConnStateSelected
+		wantOp = "Search"
+		notKey = true
+		text("A1 SEARCH NOT TEXT ")
 		addArg()
 		text("\r\n")
 	case 4:
@@ -378,7 +386,11 @@ func VerifC04Frame() {
 		case "Select", "Create":
 			nd.Assert(strings.EqualFold(want[0], "INBOX") || o.s1 == want[0] || !c04ascii(want[0]), "mailbox-argument-taken-from-elsewhere")
 		case "Search":
-			nd.Assert(len(o.criteria.Text) == 1 && o.criteria.Text[0] == want[0], "search-argument-taken-from-elsewhere")
+			if notKey {
+				nd.Assert(len(o.criteria.Not) == 1 && len(o.criteria.Not[0].Text) == 1 && o.criteria.Not[0].Text[0] == want[0], "search-not-key-dropped-or-altered")
+			} else {
+				nd.Assert(len(o.criteria.Text) == 1 && o.criteria.Text[0] == want[0], "search-argument-taken-from-elsewhere")
+			}
 		case "Append":
 			nd.Assert(string(o.lit) == want[0], "append-payload-taken-from-elsewhere")
 		}
